@@ -12,6 +12,8 @@ ENGINES = [
      "kind_free_text": "implementation-shaped TLA+ model of the deep parser, DeepEx::compile, flatten_vecs, flatex_to_deepex; TLC refinement check"},
     {"name": "lexer-model", "path": "spec/LexImpl.tla spec/MC_Lex.tla spec/LexTables.tla spec/MC_Call.tla spec/Judge_Lex.tla", "serves_properties": ["C08", "C13", "C06", "C07"],
      "kind_free_text": "implementation-shaped TLA+ model of tokenize_and_analyze and check_parsed_token_preconditions; TLC equivalence with the abstract lexer on all short texts; call-form refinement on trees"},
+    {"name": "tracker-model", "path": "spec/Tracker.tla spec/MC_Sched.tla spec/MC_Chain.tla spec/Judge_Sched.tla", "serves_properties": ["C14"],
+     "kind_free_text": "bit-level model of NumberTracker; enumeration of all application orders; judge of recorded tracker answers"},
     {"name": "recorder", "path": "harness/", "serves_properties": ["C01", "C02", "C03"],
      "kind_free_text": "Rust crate driving the real exmex with a free term algebra as data type and run-time operator tables; records observations as ndjson"},
     {"name": "judge", "path": "spec/Judge_Expr.tla", "serves_properties": ["C01", "C02", "C03"],
@@ -46,5 +48,9 @@ CLAIMS = {
                 text="Every single-point damage (paren deleted/inserted at every position, binary operator appended, operand inserted beside every operand, illegal character at every position, blank) of every rendering incl. call form of every tree in the bound must give an error from FlatEx::parse, parse_wo_compile and DeepEx::parse; "
                      "random damaged expressions over the real float/value tables must be rejected by parse, eval_str, parse_val and the statement parsers whenever Grammar.Classify puts the text in a must-reject class.",
                 note=BASE_NOTE + "Which error message is produced is not constrained."),
+    "C14": dict(category=MC, technique="bit-level TLA+ model of NumberTracker checked by TLC in every reachable state (= every schedule) + all n! application orders replayed on the real trackers (hook) and through the public API + TLC-judged long chains across the word boundaries",
+                text="Tracker.tla shows the rotate/leading-ones/trailing-ones/carry algorithm equals the alive-vector meaning for word sizes 3-12 and up to 5 words; all 7! (quick) / 8! (thorough) application orders are run on the real usize and [usize] trackers at offsets around bits 63|64 and 127|128 "
+                     "and as chains with distinct priorities through FlatEx/DeepEx; chains of up to 300 operands with structured orders are judged from their text.",
+                note="Trusted: TLC, Tracker.tla's reading of the Rust bit operations at parametric word size (the real 64-bit words are exercised by the replay). The literal 64 in the carry loop is modelled as W."),
 }
 NOT_YET = {}
